@@ -110,7 +110,8 @@ def record(ck, vecs):
         return items
     items = [it for part in vlib.parallel(one, range(NSHARDS), n=NSHARDS) for it in part]
     items.sort(key=lambda it: -it[0])
-    bins = [[0.0, []] for _ in range(NSHARDS)]
+    # quick: 8 TLC processes (a JVM start costs ~6 s CPU, as much as judging 40 small events); thorough: 16
+    bins = [[0.0, []] for _ in range(NSHARDS if ck.thorough else 8)]
     for cost, line in items:
         b = min(bins, key=lambda x: x[0])
         b[0] += cost
